@@ -63,6 +63,40 @@ func (s *holdStore) CasByVersion(ctx context.Context, r kvs.Record) (kvs.Record,
 	return s.Storage.CasByVersion(ctx, r)
 }
 
+// ctxStore behaves like a network client: a call whose context has ended fails with the context's error
+type ctxStore struct{ kvs.Storage }
+
+func (s ctxStore) Create(ctx context.Context, r kvs.Record) (string, error) {
+	if err := ctx.Err(); err != nil {
+		return "", err
+	}
+	return s.Storage.Create(ctx, r)
+}
+func (s ctxStore) Get(ctx context.Context, k string) (kvs.Record, error) {
+	if err := ctx.Err(); err != nil {
+		return kvs.Record{}, err
+	}
+	return s.Storage.Get(ctx, k)
+}
+func (s ctxStore) Put(ctx context.Context, r kvs.Record) (kvs.Record, error) {
+	if err := ctx.Err(); err != nil {
+		return kvs.Record{}, err
+	}
+	return s.Storage.Put(ctx, r)
+}
+func (s ctxStore) CasByVersion(ctx context.Context, r kvs.Record) (kvs.Record, error) {
+	if err := ctx.Err(); err != nil {
+		return kvs.Record{}, err
+	}
+	return s.Storage.CasByVersion(ctx, r)
+}
+func (s ctxStore) Delete(ctx context.Context, k string) error {
+	if err := ctx.Err(); err != nil {
+		return err
+	}
+	return s.Storage.Delete(ctx, k)
+}
+
 type leaseSummary struct {
 	acq, rel, maxIn int64
 	overlap         string
@@ -107,7 +141,10 @@ func runLeaseOnce(c *Case) *leaseSummary {
 	inner := inmem.New()
 	var st kvs.Storage = inner
 	var hs *holdStore
-	if f.Scn == "cancel" {
+	if f.Scn == "ctxend" {
+		st = ctxStore{inner}
+	}
+	if f.Scn == "cancel" || f.Scn == "relock" {
 		hs = &holdStore{Storage: inner, key: "/locks/LA", max: ttl / 2, entered: make(chan struct{}), release: make(chan struct{})}
 		st = hs
 	}
@@ -245,6 +282,49 @@ func runLeaseOnce(c *Case) *leaseSummary {
 		time.Sleep(time.Duration(f.HoldU) * ttl / 20)
 		cs.leave()
 		guard("Locker B Unlock", func() { lb.Unlock(); atomic.AddInt64(&cs.rel, 1) })
+	case "ctxend":
+		// the context of the acquisition ends right after the acquisition (ctx, cancel := ...; defer cancel() around
+		// the call): the tenure goes on, on a storage client that honours contexts
+		l0, l2 := p0.NewLocker("L"), p2.NewLocker("L")
+		ctx, cancel := context.WithCancel(context.Background())
+		got := false
+		if r.Bool() {
+			guard("Locker 0 LockWithCtx", func() { got = l0.LockWithCtx(ctx) == nil })
+		} else {
+			guard("Locker 0 TryLock", func() { got = l0.TryLock(ctx) })
+		}
+		if !got {
+			cancel()
+			sum.skipped = "Locker 0 did not acquire the free lock"
+			break
+		}
+		cs.enter("Locker 0 acquired on an empty store while another caller was inside")
+		cancel()
+		wg.Add(1)
+		go intruder(l2, "Locker 2 (another provider)", stop, &wg)
+		time.Sleep(time.Duration(f.HoldU) * ttl / 20)
+		cs.leave()
+		guard("Locker 0 Unlock", func() { l0.Unlock(); atomic.AddInt64(&cs.rel, 1) })
+	case "relock":
+		// the renewal of the first tenure is on its way to the store while the same Locker is unlocked and locked again
+		la, la2 := p0.NewLocker("LA"), p1.NewLocker("LA")
+		guard("Locker A Lock", func() { la.Lock() })
+		cs.enter("Locker A acquired on an empty store while another caller was inside")
+		select {
+		case <-hs.entered:
+		case <-time.After(ttl + 2*time.Second):
+			sum.skipped = "the renewal of lock LA never reached the store"
+		}
+		cs.leave()
+		guard("Locker A Unlock", func() { la.Unlock(); atomic.AddInt64(&cs.rel, 1) })
+		guard("Locker A Lock again", func() { la.Lock() })
+		cs.enter("Locker A acquired again right after its own Unlock while another caller was inside")
+		close(hs.release)
+		wg.Add(1)
+		go intruder(la2, "Locker A' (another provider)", stop, &wg)
+		time.Sleep(time.Duration(f.HoldU) * ttl / 20)
+		cs.leave()
+		guard("Locker A Unlock", func() { la.Unlock(); atomic.AddInt64(&cs.rel, 1) })
 	default:
 		sum.setup = "unknown lease scenario " + f.Scn
 	}
@@ -434,14 +514,21 @@ func leaseCase(prop string, seed uint64, i int) Case {
 	r := prng.New(seed, prop+"-lease", uint64(i))
 	c := Case{Prop: prop, SSeed: r.U64(), Ops: []Op{}, Prov: []int{0, 1, 2}, NT: 3}
 	f := &Free{G: []int{0, 1, 2}, Rounds: 1, LeaseMs: []int{160, 240, 320}[i%3]}
-	if i%2 == 0 {
+	switch i % 4 {
+	case 0:
 		f.Scn = "contend"
 		f.HoldU = r.Range(14, 32) // Locker 0 holds for 0.7 .. 1.6 lease periods
-	} else {
+	case 1:
 		f.Scn = "cancel"
 		f.HoldU = r.Range(30, 36) // Locker B holds for 1.5 .. 1.8 lease periods
+	case 2:
+		f.Scn = "ctxend"
+		f.HoldU = r.Range(30, 40) // 1.5 .. 2 lease periods
+	case 3:
+		f.Scn = "relock"
+		f.HoldU = r.Range(44, 52) // 2.2 .. 2.6 lease periods after the second acquisition
 	}
-	f.Warm = i%4 >= 2
+	f.Warm = i%8 >= 4
 	c.Free = f
 	return c
 }
